@@ -381,6 +381,34 @@ def s16_region(bpj, harvest):
     return False
 
 
+# what an entity's circuit output may carry in this model (the per-program content universe of facto_rich)
+ENTITY_CONTENT = {
+    "steel-chest": ["iron-plate", "copper-plate", "steel-plate"],
+    "iron-chest": ["iron-plate", "copper-plate", "steel-plate"],
+    "wooden-chest": ["iron-plate", "copper-plate", "steel-plate"],
+    "storage-tank": ["water", "crude-oil"],
+}
+
+
+def s27_region(bpj, harvest):
+    """known finding S27: the colouring only separates producers of one *edge label*; an entity's `.output`
+    travels as one edge labelled "bundle", so a computed value on a signal the entity also reports is put on
+    the same colour as that entity's output at a common consumer and the two are summed"""
+    num = id_to_number(bpj, harvest)
+    names = {e["entity_number"]: e["name"] for e in entities_of(bpj)}
+    by_sink = {}
+    for src, snk, sig, col, *_m in harvest["edges"]:
+        by_sink.setdefault((snk, col), []).append((src, sig))
+    for (snk, col), lst in by_sink.items():
+        for src, sig in lst:
+            if sig != "bundle":
+                continue
+            content = ENTITY_CONTENT.get(names.get(num.get(src)), [])
+            if any(s2 in content and src2 != src for src2, s2 in lst):
+                return True
+    return False
+
+
 def s17_region(bpj, harvest):
     """known finding S17: a producer in the compiler's logical edge list has no entity in the blueprint
     (an anonymous folded constant that is a wire-merge operand is never materialised)"""
